@@ -198,7 +198,7 @@ impl ThreeFold {
 
     pub fn add(&mut self, board: Board) -> bool {
         let count = self.boards.entry(board).or_insert(0);
-        *count += 1;
+        *count = count.saturating_add(1);
         *count == 3
     }
 
